@@ -4,14 +4,17 @@ import (
 	"context"
 	"encoding/json"
 	"fmt"
+	"math"
 	"math/rand"
 	"os"
 	"sort"
+	"strings"
 	"time"
 
 	"github.com/bmeg/grip/config"
 	"github.com/bmeg/grip/gdbi"
 	"github.com/bmeg/grip/gripql"
+	"github.com/bmeg/grip/jobstorage"
 	"github.com/bmeg/grip/kvgraph"
 	"github.com/bmeg/grip/kvi"
 	"github.com/bmeg/grip/server"
@@ -29,6 +32,9 @@ type c11Op struct {
 	Op   string  `json:"op"` // submit resume search list delete restart
 	Prog []tStmt `json:"prog,omitempty"`
 	Job  int     `json:"job,omitempty"` // index of the submit it refers to
+	N    int     `json:"n,omitempty"`   // spool: number of workers
+	M    int     `json:"m,omitempty"`   // spool: number of items
+	P    int     `json:"p,omitempty"`   // spool: 1 + index of an item that cannot be serialized (NaN in its data); 0 = none
 }
 type c11Input struct {
 	Graph tGraph  `json:"graph"`
@@ -206,6 +212,26 @@ func jobsWorker(req json.RawMessage) interface{} {
 			} else {
 				o.Accepted = true
 			}
+		case "spool":
+			// the serializer pair the job spool is written and read through: ids in, ids out
+			in := make(chan gdbi.Traveler, 4)
+			go func() {
+				for i := 0; i < op.M; i++ {
+					el := &gdbi.DataElement{ID: fmt.Sprint(i), Label: "P", Loaded: true}
+					if op.P == i+1 {
+						el.Data = map[string]interface{}{"x": math.NaN()} // json.Marshal refuses it: the slot must stay in place
+					}
+					in <- &gdbi.BaseTraveler{Current: el}
+				}
+				close(in)
+			}()
+			o.Found = []int{}
+			for t := range jobstorage.UnmarshalStream(jobstorage.MarshalStream(in, op.N), op.N) {
+				id := -1
+				fmt.Sscan(t.GetCurrentID(), &id)
+				o.Found = append(o.Found, id)
+			}
+			o.Accepted = true
 		case "restart":
 			s2, err := newServer()
 			if err != nil {
@@ -221,7 +247,7 @@ func jobsWorker(req json.RawMessage) interface{} {
 
 func waitJob(srv *server.GripServer, j *gripql.QueryJob) *gripql.JobStatus {
 	var st *gripql.JobStatus
-	for k := 0; k < 2000; k++ {
+	for k := 0; k < 18000; k++ { // up to 90 s: a job with distinct() opens a temporary store, which is slow on a loaded machine
 		s, err := srv.GetJob(context.Background(), j)
 		if err == nil {
 			st = s
@@ -335,7 +361,7 @@ func runC11(ctx *Ctx) error {
 	ctx.EvalMod = "Eval_C11"
 	ctx.CaseTy = "c11_case"
 	ctx.Shard = 12
-	ctx.Rule = "histories against the Job service of an in-process server (verif hook; jobs spooled under a real job directory, badger store): random graphs (0..5 vertices, self loops, parallel and dangling edges, nested data) x histories of 8..20 operations: submit of random traversals of all result types (vertices, edges, counts, selections, renders, paths; the direct Traversal of the same query is run alongside), view, resume with typed extensions (and some ill-typed), search with the same / a longer / a shorter / an unrelated query, list, delete, restart (a new server object over the same job directory and store); plus sized jobs around the 4-worker pool and 10/40-slot buffers; a two-step job on another graph is always present; observed: acceptance, state, count, rows of view/resume/direct, ids found; non-trivial = a history with a resume or a restart after a submit; distinct by input"
+	ctx.Rule = "histories against the Job service of an in-process server (verif hook; jobs spooled under a real job directory, badger store): random graphs (0..5 vertices, self loops, parallel and dangling edges, nested data) x histories of 8..20 operations: submit of random traversals of all result types (vertices, edges, counts, selections, renders, paths; the direct Traversal of the same query is run alongside), view, resume with typed extensions (and some ill-typed), search with the same / a longer / a shorter / an unrelated query, list, delete, restart (a new server object over the same job directory and store); plus sized jobs around the 4-worker pool and 10/40-slot buffers; a two-step job on another graph is always present; plus the serializer pair of the spool on its own (jobstorage.MarshalStream |> UnmarshalStream) for 1..8 workers x 0..300 items, ids out against ids in, in order; observed: acceptance, state, count, rows of view/resume/direct, ids found; non-trivial = a history with a resume or a restart after a submit; distinct by input"
 	var inputs []c11Input
 	if ctx.Replay != nil {
 		var in c11Input
@@ -361,6 +387,37 @@ func runC11(ctx *Ctx) error {
 		}
 	}
 	if ctx.Replay == nil {
+		// a row longer than any line buffer of the spool reader (70 kB in one property), in the middle of the rows
+		{
+			g := tGraph{V: []tVertex{}, E: []tEdge{}}
+			for k := 0; k < 6; k++ {
+				d := map[string]interface{}{"w": float64(k)}
+				if k == 2 {
+					d["blob"] = strings.Repeat("x", 70000)
+				}
+				g.V = append(g.V, tVertex{ID: fmt.Sprintf("v%d", k), Label: "P", Data: d})
+			}
+			p := []tStmt{{Op: "V"}, {Op: "hasLabel", Strs: []string{"P"}}}
+			inputs = append(inputs, c11Input{Graph: g, Ops: []c11Op{{Op: "submit", Prog: p}, {Op: "view", Job: 0}, {Op: "restart"}, {Op: "view", Job: 0},
+				{Op: "resume", Job: 0, Prog: []tStmt{{Op: "count"}}}, {Op: "resume", Job: 0, Prog: []tStmt{{Op: "has", Has: &hExpr{Kind: "cond", Key: "w", Op: "gte", Arg: 3.0}}}}}})
+		}
+		// the spool's serializer pair on its own: every worker count 1..6 x lengths around multiples of it
+		sp := []c11Op{}
+		for n := 1; n <= 6; n++ {
+			for _, m := range []int{0, 1, n - 1, n, n + 1, 2*n - 1, 2 * n, 2*n + 1, 7 * n, 7*n + 3, 101} {
+				if m >= 0 {
+					sp = append(sp, c11Op{Op: "spool", N: n, M: m})
+				}
+			}
+		}
+		for i := 0; i < ctx.Pick(10, 100); i++ {
+			sp = append(sp, c11Op{Op: "spool", N: 1 + ctx.Rng.Intn(8), M: ctx.Rng.Intn(300)})
+		}
+		// one item that cannot be serialized: it arrives empty, in its place, and nothing behind it moves
+		for _, nm := range [][3]int{{4, 24, 6}, {4, 24, 1}, {3, 10, 10}, {1, 5, 3}, {5, 23, 12}} {
+			sp = append(sp, c11Op{Op: "spool", N: nm[0], M: nm[1], P: nm[2]})
+		}
+		inputs = append(inputs, c11Input{Graph: tGraph{V: []tVertex{}, E: []tEdge{}}, Ops: sp})
 		// marks and selections across a restart: the stored mark types are what a resumed select() and the
 		// conversion of stored selection rows depend on
 		fg := fixedGraph()
@@ -432,6 +489,15 @@ func runC11(ctx *Ctx) error {
 			case "restart":
 				nontriv = nontriv || seenSubmit
 				ops[k] = "ORestart"
+			case "spool":
+				sent := make([]string, op.M)
+				for x := range sent {
+					sent[x] = fmt.Sprint(x)
+					if op.P == x+1 {
+						sent[x] = "99999" // arrives as an empty traveler
+					}
+				}
+				ops[k] = fmt.Sprintf("(OSpool %d %s %s)", op.N, coq.List(sent), coq.List(found))
 			}
 		}
 		cc := coq.Record("jgraph", in.Graph.coq(), "jhistory", coq.List(ops), "jfailed", coq.Bool(ob.Err != ""))
